@@ -88,6 +88,22 @@ theorem sign_eq (v : Vec k R) :
   unfold Impl.sign Spec.nyqE
   exact mkSign_sgn _ _
 
+/-- **sign_scale_invariant.**  The sign is decided by the SIGNS of the two coefficients: scaling a vector by
+any positive factor, however small (the harness scales by 2⁻⁶⁰ … 2⁻⁶⁰⁰), leaves `sign` — value or refusal —
+unchanged.  (No tolerance appears anywhere in the modelled rule.) -/
+theorem sign_scale_invariant (c : R) (hc : 0 < c) (v : Vec k R) :
+    Impl.sign (fun i => c * v i) = Impl.sign v := by
+  have hny : Spec.nyqE (fun i => c * v i) = c * Spec.nyqE v := by
+    unfold Spec.nyqE
+    split
+    · simp
+    · exact C17.HrrL.nyq_smul c v
+  have h1 : ∀ x : R, sgn (c * x) = sgn x := fun x => by rw [sgn_mul, sgn_pos hc]; simp
+  have h2 : ∀ x : R, c * x = 0 ↔ x = 0 := fun x =>
+    ⟨fun h => (mul_eq_zero.1 h).resolve_left hc.ne', fun h => by simp [h]⟩
+  rw [sign_eq, sign_eq, C17.HrrL.dc_smul, hny]
+  simp only [h1, h2, ne_eq]
+
 /-- `sign` raises exactly on the class DC = 0, Nyquist ≠ 0 (and then with the first `ValueError`) -/
 theorem sign_raises_iff (v : Vec k R) :
     (∃ e, Impl.sign v = .error e) ↔ Spec.DcZeroNyquistNonzero v := by
@@ -442,6 +458,69 @@ theorem classify_valid {n : Type*} [Fintype n] [DecidableEq n] (M : Matrix n n R
     Generic.valid (Def.classify M) = true := by
   rcases DefL.classify_values M with h | h | h | h <;> rw [h] <;> rfl
 
+/-! ### the class does not depend on the scale -/
+section Scale
+variable {n : Type*} [Fintype n]
+open Def
+
+theorem quad_smul (c : R) (M : Matrix n n R) (x : n → R) : quad (c • M) x = c * quad M x := by
+  unfold quad
+  rw [Matrix.smul_mulVec, dotProduct_smul, smul_eq_mul]
+
+theorem posDef_smul {c : R} (hc : 0 < c) (M : Matrix n n R) : PosDef (c • M) ↔ PosDef M := by
+  unfold PosDef
+  constructor
+  · intro h x hx
+    have := h x hx
+    rw [quad_smul] at this
+    exact (mul_pos_iff_of_pos_left hc).1 this
+  · intro h x hx
+    rw [quad_smul]
+    exact mul_pos hc (h x hx)
+
+theorem negDef_smul {c : R} (hc : 0 < c) (M : Matrix n n R) : NegDef (c • M) ↔ NegDef M := by
+  unfold NegDef
+  constructor
+  · intro h x hx
+    have := h x hx
+    rw [quad_smul] at this
+    by_contra hn
+    exact absurd this (not_lt.2 (mul_nonneg hc.le (not_lt.1 hn)))
+  · intro h x hx
+    rw [quad_smul]
+    exact mul_neg_of_pos_of_neg hc (h x hx)
+
+theorem smul_eq_zero_iff_of_pos {c : R} (hc : 0 < c) (M : Matrix n n R) : c • M = 0 ↔ M = 0 := by
+  constructor
+  · intro h
+    ext i j
+    have := congrFun (congrFun h i) j
+    simp only [Matrix.smul_apply, smul_eq_mul, Matrix.zero_apply] at this
+    exact (mul_eq_zero.1 this).resolve_left hc.ne'
+  · intro h; simp [h]
+
+theorem isSymm_smul {c : R} (hc : 0 < c) (M : Matrix n n R) : (c • M).IsSymm ↔ M.IsSymm := by
+  constructor
+  · intro h
+    ext i j
+    have := congrFun (congrFun h i) j
+    simp only [Matrix.transpose_apply, Matrix.smul_apply, smul_eq_mul] at this
+    exact mul_left_cancel₀ hc.ne' this
+  · intro h
+    exact h.smul c
+
+theorem classify_congr {M M' : Matrix n n R} (h0 : M.IsSymm ↔ M'.IsSymm) (h1 : PosDef M ↔ PosDef M')
+    (h2 : NegDef M ↔ NegDef M') (h3 : M = 0 ↔ M' = 0) : classify M = classify M' := by
+  unfold classify
+  split_ifs <;> first | rfl | (exfalso; tauto)
+
+/-- **classify_smul.**  The class of a matrix (symmetric and positive / negative definite, zero, indefinite)
+does not change when the matrix is scaled by a positive factor, however small: no tolerance, no product of
+eigenvalues that could underflow, belongs to the documented rule. -/
+theorem classify_smul {c : R} (hc : 0 < c) (M : Matrix n n R) : classify (c • M) = classify M :=
+  classify_congr (isSymm_smul hc M) (posDef_smul hc M) (negDef_smul hc M) (smul_eq_zero_iff_of_pos hc M)
+end Scale
+
 /-- the four `GenericSign` predicates are mutually exclusive and exhaustive on every valid value -/
 theorem predicates_exactly_one (g : Option Int) :
     (Generic.isPositive g).toNat + (Generic.isNegative g).toNat + (Generic.isZero g).toNat
@@ -509,6 +588,12 @@ is the unique `c` with `HasClass (toMat v) c` -/
 theorem sign_class_iff (s : R) (hs : 0 < s) (v : Vec2 m R) (c : Cls) :
     Def.HasClass (toMat v) c ↔ Generic.cls (Impl.sign s v) = c := by
   rw [sign_eq_classify s hs]; exact DefL.hasClass_iff _ c
+
+/-- the sign of a vector does not change when the vector is scaled by a positive factor -/
+theorem sign_scale_invariant (s : R) (hs : 0 < s) {c : R} (hc : 0 < c) (v : Vec2 m R) :
+    Impl.sign s (fun p => c * v p) = Impl.sign s v := by
+  rw [sign_eq_classify s hs, sign_eq_classify s hs]
+  exact Mat.classify_smul hc (toMat v)
 
 /-- the same on the matrix the code actually inspects (`get_binding_matrix(v)`) -/
 theorem sign_class_iff_bindMat (s : R) (v : Vec2 m R) (c : Cls) :
@@ -633,6 +718,12 @@ is the unique `c` with `HasClass (toMat v) c` -/
 theorem sign_class_iff (s : R) (hs : 0 < s) (v : Vec2 m R) (c : Cls) :
     Def.HasClass (toMat v) c ↔ Generic.cls (Impl.sign s v) = c := by
   rw [sign_eq_classify s hs]; exact DefL.hasClass_iff _ c
+
+/-- the sign of a vector does not change when the vector is scaled by a positive factor -/
+theorem sign_scale_invariant (s : R) (hs : 0 < s) {c : R} (hc : 0 < c) (v : Vec2 m R) :
+    Impl.sign s (fun p => c * v p) = Impl.sign s v := by
+  rw [sign_eq_classify s hs, sign_eq_classify s hs]
+  exact Mat.classify_smul hc (toMat v)
 
 /-- the same on the matrix the code actually inspects (`get_binding_matrix(v)`) -/
 theorem sign_class_iff_bindMat (s : R) (v : Vec2 m R) (c : Cls) :
